@@ -244,6 +244,10 @@ func genC06(r *core.Rand, run int) *MuxScenario {
 	nresp := r.Intn(7)
 	sp.Handler = genHandler(r, mi, nresp, limit, tr.codec)
 	if tr.codec == "body" {
+		// (the upload's media type: the chunker is chosen by the message type,
+		// whatever the Content-Type says - also when a message codec is
+		// registered for it)
+		sp.BodyCT = r.PickS("", "", "text/plain", "application/octet-stream", "application/protobuf", "application/json")
 		// HttpBody handlers: through Recv/Send or through the raw reader/writer
 		h := HandlerSpec{FailCode: int(codes.Aborted), Resps: sp.Handler.Resps}
 		if r.Chance(1, 2) {
@@ -296,6 +300,12 @@ func genC06(r *core.Rand, run int) *MuxScenario {
 		sp.Fault.Err = "ueof" // HTTP/1.1: a broken body reads as io.ErrUnexpectedEOF
 	}
 	addZeroMessages(r, &sp)
+	// an Accept header, possibly asking for the other representation than the
+	// request's own (only where no error rendering is expected: how an error is
+	// rendered under an Accept header is C05's subject)
+	if tr.proto == "http" && tr.codec != "body" && sp.Handler.Code == 0 && sp.Fault.Kind == "" && r.Chance(1, 4) {
+		sp.Accept = r.PickS("json", "proto")
+	}
 	// a deadline that passes after the handler has made progress: the handler
 	// sends its messages, outlives the grpc-timeout asleep, then returns; the
 	// client (still connected) must be given a final status all the same
@@ -693,7 +703,7 @@ func oracleHTTPBodyRecv(prop string, mr *muxRun, rs *reqState, fail func(string,
 			return fail("bodyreader-first-message", "AsHTTPBodyReader path recorded %d first messages (err %v)", len(l.Recv), l.BodyReadErr)
 		}
 		first, _ := l.Recv[0].(*testpb.UploadFileRequest)
-		if first.GetFilename() != sp.PathVar || first.GetFile().GetContentType() != "image/jpeg" || len(first.GetFile().GetData()) != 0 {
+		if first.GetFilename() != sp.PathVar || first.GetFile().GetContentType() != sp.bodyCT() || len(first.GetFile().GetData()) != 0 {
 			return fail("recv-mismatch", "AsHTTPBodyReader first message: %s", msgPreview(l.Recv[0]))
 		}
 		got = l.BodyRead
@@ -708,7 +718,7 @@ func oracleHTTPBodyRecv(prop string, mr *muxRun, rs *reqState, fail func(string,
 			if i > 0 && u.GetFilename() != "" {
 				return fail("recv-mismatch", "chunk message #%d carries filename %q again", i, u.GetFilename())
 			}
-			if u.GetFile().GetContentType() != "image/jpeg" {
+			if u.GetFile().GetContentType() != sp.bodyCT() {
 				return fail("recv-mismatch", "chunk message #%d has content type %q", i, u.GetFile().GetContentType())
 			}
 			data := u.GetFile().GetData()
